@@ -3,10 +3,13 @@ import random
 
 from harness import coqfmt as cf
 from harness import graphs as gr
+from harness import cmd_suite as cs
 
 PROP = "C02"
 COQ = dict(imports=["Model.Plan", "Spec.C02"], in_ty="input02", out_ty="pres (list N)",
            corr="corr_C02", decide="check_C02", inclass="inclass_C02", model="model_C02")
+SUITES = {"cmd": cs.SUITE}
+cleanup = cs.cleanup
 THEOREMS = ["C02_model_holds", "C02_plan_exact", "C02_total", "C02_decider_sound", "C02_downgrade_base_removes_all"]
 TRUSTED = ["target strings (ids, base, -N, rev-N, label@rev) are resolved by the real _parse_downgrade_target / _resolve_branch and "
            "handed to the model as (target id or base, branch revision): C02 is planner-after-resolution, resolution itself is C16",
@@ -68,6 +71,11 @@ def _coq_tgt(struct, g):
 
 
 def generate(tier, seed):
+    yield from cs.generate(False, tier, seed)      # whole commands, end to end (suite "cmd")
+    yield from _generate_plans(tier, seed)
+
+
+def _generate_plans(tier, seed):
     rnd = random.Random(seed * 1000003 + 2)
     for n in (1, 2, 3, 4):
         for g in gr.acyclic_graphs(n):
@@ -211,6 +219,8 @@ def _one(g, m, sd, S, t, st):
 
 
 def run_case(h):
+    if "cmd" in h:
+        return cs.run_cmd_case(h)
     if "e2e" in h:
         return _e2e(h)
     g = h["g"]
@@ -235,6 +245,8 @@ def classify(human, out):
 
 
 def canary(human, rec):
+    if "cmd" in human:
+        return cs.canary(human, rec)
     """corrupted plans the decider must reject: a revision dropped, a revision repeated, an error instead of a plan"""
     plan = rec["out"].get("plan")
     if not plan:
